@@ -32,7 +32,7 @@ func Perm(n int) []int {
 // share files: "create" / "open" (after the call; trunc tells whether the file was emptied),
 // "write" (before the call: the return value is how many of the n bytes may be written; fewer
 // than n means a torn write, after which "torn" is called and is expected not to return),
-// "rename" (after the call, path = the new name).
+// "written" (after a complete write), "remove" and "rename" (after the call, path = the new name).
 var FileHook func(op, path string, n int, trunc bool) int
 
 func Create(name string) (*os.File, error) {
@@ -77,5 +77,17 @@ func (w *hookedWriter) Write(p []byte) (int, error) {
 			return k, err
 		}
 	}
-	return w.f.Write(p)
+	n, err := w.f.Write(p)
+	if h := FileHook; h != nil && err == nil {
+		h("written", w.f.Name(), n, false)
+	}
+	return n, err
+}
+
+func Remove(name string) error {
+	err := os.Remove(name)
+	if h := FileHook; h != nil && err == nil {
+		h("remove", name, 0, false)
+	}
+	return err
 }
